@@ -8,3 +8,10 @@
 pub fn slice_index_fail(_start: usize, _end: usize, _len: usize) -> ! {
     panic!("slice index out of range")
 }
+
+/// Replacement for core::result::unwrap_failed (private, `-> !`): keeps the
+/// panic of a failed unwrap()/expect(), drops the Debug formatting of the
+/// error value.
+pub fn unwrap_failed(_msg: &str, _error: &dyn core::fmt::Debug) -> ! {
+    panic!("called unwrap()/expect() on an Err value")
+}
